@@ -295,7 +295,8 @@ def run(tier, seed):
                     continue
                 for o2 in ops_all[::3]:
                     cases.append(pre + [o1, o2])
-    cases += gen_random(rng, 1200 if tier == "quick" else 12000, 25)
+    cases += gen_random(rng, 1200 if tier == "quick" else 100000, 25)
+    cases = list(common.share(cases))
     model = common.run_model("fs", cases)
     impl = Impl()
     nops = 0
@@ -352,7 +353,7 @@ def run(tier, seed):
         "result_distribution": {f"op{k[0]}:{k[1]}": n for k, n in sorted(dist.items(), key=str)},
         "samples": [cases[len(PREFIXES) * 7], cases[-1]],
     })
-    v.assumptions = ["host file system: tmpfs under /dev/shm, process runs as root (permission refusals not reachable)"]
+    v.assumptions = list(common.ASSUMPTIONS) + ["host file system: tmpfs under /dev/shm, process runs as root (permission refusals not reachable)"]
     return v.finish()
 
 
